@@ -347,7 +347,7 @@ def metOp (recs ends : String) : String :=
   let rs : Option (List (List Nat)) := if recs == "-" then some [] else (recs.splitOn ",").mapM parseNats
   match rs, (ends.splitOn ",").mapM parseNats with
   | some rs, some es =>
-    if !(rs.all fun r => r.length == 5) || !(es.all fun e => e.length == 3) then "bad-op"
+    if !(rs.all fun r => r.length == 7) || !(es.all fun e => e.length == 3) then "bad-op"
     else
       let hist : List (Nat × Nat) := rs.map fun r => (r.getD 0 0, r.getD 1 0)
       let (_, obs) := QM.run {} hist
@@ -355,7 +355,9 @@ def metOp (recs ends : String) : String :=
       let badRec := (List.range rs.length).find? fun i =>
         let r := rs.getD i []
         let o := obs.getD i ⟨0, 0, 0⟩
-        !(r.getD 2 0 == o.hostAttempts && r.getD 3 0 == o.hostTotal && r.getD 4 0 == o.idx)
+        -- … and the Metrics value handed over is a snapshot: read again later it still says the same
+        !(r.getD 2 0 == o.hostAttempts && r.getD 3 0 == o.hostTotal && r.getD 4 0 == o.idx &&
+          r.getD 5 0 == o.hostAttempts && r.getD 6 0 == o.hostTotal)
       match badRec with
       | some i => s!"reject:observer-record:{i}"
       | none =>
